@@ -57,7 +57,7 @@ def vod_vector(rng, manifest: str, mode: str, encrypted_ok: bool) -> dict:
 def generate(seed: int, tier: str, index: int, prop: str = ID, range_steps: bool = False) -> dict:
     rng = base.rng_for(seed, "gen")
     t0 = simclock.SimClock.parse(rng.choice(mc.T0_CHOICES)) + rng.randrange(0, 1_000_000)
-    streams = [rng.choice(["bbb", "tears", "fza", "fzb", "fzc", "fzd", "bbb"])]
+    streams = [rng.choice(["bbb", "tears", "fza", "fzb", "fzc", "fzd", "fze", "bbb"])]
     actors = []
     for i in range(rng.choice([1, 1, 2])):
         manifest, mode = rng.choice(VOD_TEMPLATES)
@@ -209,6 +209,13 @@ class Oracle:
                 sim.violate("track-gap", subj,
                             f"segment #{seg.get('n')} starts at {ms.tfdt[1]}, previous ended at {decode}; {seg['url']}")
                 return
+            if seg.get("t") is not None:
+                # a SegmentTimeline entry describes the stored segment it addresses exactly
+                sim.check("c06-timeline-entry")
+                if ms.tfdt[1] != seg["t"] or (dur is not None and dur != seg["d"]):
+                    sim.violate("timeline-entry", subj,
+                                f"<S t={seg['t']} d={seg['d']}> but the segment served for it starts at {ms.tfdt[1]} "
+                                f"and lasts {dur}; {seg['url']} ({url0})")
             decode = ms.tfdt[1] + (dur or 0)
             total += dur or 0
             n_ok += 1
